@@ -19,7 +19,7 @@ func ruleC02(prog *Program, rep *Report) {
 	ruleAccumulators(prog, rep)
 	ruleEscapeDecode(prog, rep)
 	ruleSurrogates(prog, rep)
-	rulePoolPut(prog, rep) // a parser put back before its last use mixes two callers' documents
+	rulePoolPut(prog, rep, "oj.Parser", "gen.Parser", "sen.Parser", "oj.Tokenizer", "oj.Validator", "sen.Tokenizer") // a parser put back before its last use mixes two callers' documents
 	rep.Rules = append(rep.Rules, "A-events: value/token events of the four JSON front-ends agree with the reference at every byte (kind of each value: null/true/false/string/number/container, key vs value) - see C03")
 	results := exploreFrontEnds(prog, jsonFrontEnds, []bool{false}, false)
 	applyParseResults(rep, results, union(kindsEvents, map[string]bool{"stale-scratch": true}), "A-events", 18)
